@@ -615,7 +615,7 @@ func sweep(rec *evid.Rec) bool {
 	ix := 0
 	for _, cmd := range []string{"isready", "stop", "quit", "eof", "ponderhit"} {
 		for phase := 0; phase < 7; phase++ {
-			for rep := 0; rep < evid.Pick(6, 40); rep++ {
+			for rep := 0; rep < evid.Pick(20, 100); rep++ {
 				ix++
 				if ix%n != shard {
 					continue
@@ -672,7 +672,7 @@ func TestC13(t *testing.T) {
 		if !sweep(rec) {
 			return
 		}
-		rec.Rapid(t, "mock_session", evid.Pick(2500, 60000), func(t *rapid.T) {
+		rec.Rapid(t, "mock_session", evid.Pick(12000, 200000), func(t *rapid.T) {
 			c := Case{Mock: true, Evs: preamble(t)}
 			ponderOn := gen.Chance(t, 1, 3, "ponderOpt")
 			if ponderOn {
@@ -695,7 +695,7 @@ func TestC13(t *testing.T) {
 				t.Fatalf("%v", err)
 			}
 		})
-		rec.Rapid(t, "real_session", evid.Pick(500, 10000), func(t *rapid.T) {
+		rec.Rapid(t, "real_session", evid.Pick(2000, 30000), func(t *rapid.T) {
 			c := Case{Evs: preamble(t)}
 			rounds := gen.Draw(t, 1, 3, "rounds")
 			for i := 0; i < rounds; i++ {
